@@ -388,12 +388,19 @@ class Loop:
 
     # --------------------------------------------------------------------------------------
     def launch_state(self, ic):
-        """ic = {mode, q (signed integer quaternion), off, vel, rate} -> (x0, mem0)"""
+        """ic = {mode, q, yaw, q0 = yaw*q (signed integer quaternions), off, vel, rate} -> (x0, mem0).
+        The launch attitude is q0/|q0| (the embedding harness.lie.so3_param("quat", .)), the commanded
+        heading psi_sp = 2 atan2(yaw_z, yaw_w); for yaw = identity this is the script's initial psi_sp."""
         x0 = np.zeros(len(self.xi))
         for k, v in self.model["x0_defaults"].items():
             x0[self.xi[k]] = float(v)
-        qn = math.sqrt(sum(int(c) * int(c) for c in ic["q"]))
-        quat = [int(c) / qn for c in ic["q"]]                 # harness.lie.so3_param("quat", Q)
+        from harness.lie import so3_param
+        quat = so3_param("quat", [int(c) for c in ic["q0"]])
+        yw, yz = int(ic["yaw"][0]), int(ic["yaw"][3])
+        if int(ic["yaw"][1]) or int(ic["yaw"][2]) or (yw == 0 and yz == 0):
+            raise MachineryError(f"launch configuration: yaw {ic['yaw']} is not a z-axis quaternion")
+        psi = 2.0 * math.atan2(yz, yw)
+        psi = math.atan2(math.sin(psi), math.cos(psi))        # (-pi, pi]
         for i in range(3):
             x0[self.xi[f"position_op_w_{i}"]] = SETPOINT[i] + float(ic["off"][i])
             x0[self.xi[f"velocity_w_p_b_{i}"]] = float(ic["vel"][i])
@@ -401,7 +408,8 @@ class Loop:
         for i in range(4):
             x0[self.xi[f"quaternion_wb_{i}"]] = quat[i]
         C = self.C
-        mem0 = np.concatenate([C["u0"], C["i0"], C["e0"], C["de0"], [C["z_i"]], [C["psi_sp"]], np.array(SETPOINT)])
+        psi_sp = C["psi_sp"] if yz == 0 and yw > 0 else psi
+        mem0 = np.concatenate([C["u0"], C["i0"], C["e0"], C["de0"], [C["z_i"]], [psi_sp], np.array(SETPOINT)])
         return x0, mem0
 
     def simulate(self, ic):
@@ -461,7 +469,8 @@ class Loop:
                   "ri": [int(v) for v in cols["ri"][:, k]], "imax": imax, "zi": int(cols["zi"][k]), "zmax": zmax,
                   "nan": 0 if finite[k] else 1}
             if k == 0:
-                ln["ic"] = {"mode": ic["mode"], "q": [int(c) for c in ic["q"]], "off": [int(c) for c in ic["off"]],
+                ln["ic"] = {"mode": ic["mode"], "q": [int(c) for c in ic["q"]], "yaw": [int(c) for c in ic["yaw"]],
+                            "q0": [int(c) for c in ic["q0"]], "off": [int(c) for c in ic["off"]],
                             "vel": [int(c) for c in ic["vel"]], "rate": [int(c) for c in ic["rate"]]}
                 ln["n"] = n
             lines.append(ln)
